@@ -291,14 +291,22 @@ impl<'arena> Diagnostics<'arena> {
 
     #[inline]
     fn line_col_from_span(&self, src: &str, start: usize) -> (usize, usize, usize, usize) {
-        let line_starts = self.compute_line_starts(src);
-        let line_idx = line_starts.binary_search(&start).unwrap_or_else(|x| x - 1);
-        let line_start = line_starts[line_idx];
-        let line_end = if line_idx + 1 < line_starts.len() {
-            line_starts[line_idx + 1] - 1
-        } else {
-            src.len()
+        // The line table is scratch data. Without handing it back, every lookup keeps a
+        // table the size of the source alive and a few hundred diagnostics exhaust the arena.
+        let mark = self.arena.offset();
+        let (line_idx, line_start, line_end) = {
+            let line_starts = self.compute_line_starts(src);
+            let line_idx = line_starts.binary_search(&start).unwrap_or_else(|x| x - 1);
+            let line_start = line_starts[line_idx];
+            let line_end = if line_idx + 1 < line_starts.len() {
+                line_starts[line_idx + 1] - 1
+            } else {
+                src.len()
+            };
+            (line_idx, line_start, line_end)
         };
+        // Safety: the table is the only allocation since `mark` and it is gone
+        unsafe { self.arena.reset(mark) };
         let col = Self::visual_col(&src[line_start..start]) + 1;
         (line_idx + 1, col, line_start, line_end)
     }
